@@ -64,6 +64,10 @@ type recorder struct {
 	holdClose    int32         // the next Close stays inside the user method until released (or 100 ms)
 	closeEntered chan struct{}
 	closeRelease chan struct{}
+	// every Update dwells this long (ns; SNAPRACE); RecoverFromSnapshot dwells (ns; INSTALL)
+	dwellUpdate  int64
+	dwellRecover int64
+	recEntered   chan struct{}
 	// the next Update dwells (NAR): one shot
 	dwellUpdateOnce int32
 	updEntered      chan struct{}
@@ -89,7 +93,7 @@ func newRecorder(seed uint64) *recorder {
 		release: make(chan struct{}), rnd: vh.NewRand(seed),
 		closeEntered: make(chan struct{}, 8), closeRelease: make(chan struct{}, 8),
 		lingerEntered: make(chan struct{}, 8), lingerGate: make(chan struct{}, 8),
-		updEntered: make(chan struct{}, 8), prepEntered: make(chan struct{}, 8)}
+		updEntered: make(chan struct{}, 8), prepEntered: make(chan struct{}, 8), recEntered: make(chan struct{}, 8)}
 }
 
 func (r *recorder) newInc() uint64 {
@@ -343,6 +347,12 @@ func (c *core) dwell(ns *int64) {
 			default:
 			}
 		}
+		if ns == &c.r.dwellRecover {
+			select {
+			case c.r.recEntered <- struct{}{}:
+			default:
+			}
+		}
 		time.Sleep(time.Duration(d))
 	}
 }
@@ -356,6 +366,7 @@ func (c *core) updDwell() {
 		}
 		time.Sleep(60 * time.Millisecond)
 	}
+	c.dwell(&c.r.dwellUpdate)
 }
 
 // NALookup is the optional statemachine.IExtended read path
@@ -407,6 +418,7 @@ func (s *plainSM) SaveSnapshot(w io.Writer, _ sm.ISnapshotFileCollection, done <
 }
 func (s *plainSM) RecoverFromSnapshot(r io.Reader, _ []sm.SnapshotFile, done <-chan struct{}) error {
 	s.r.enter(s.inc, "RecoverFromSnapshot", nil)
+	s.dwell(&s.r.dwellRecover)
 	a, c, err := readSnap(r)
 	if s.linger(&s.r.lingerRecover, done) && err == nil {
 		err = sm.ErrSnapshotStopped
@@ -465,6 +477,7 @@ func (s *concSM) SaveSnapshot(ctx interface{}, w io.Writer, _ sm.ISnapshotFileCo
 }
 func (s *concSM) RecoverFromSnapshot(r io.Reader, _ []sm.SnapshotFile, done <-chan struct{}) error {
 	s.r.enter(s.inc, "RecoverFromSnapshot", nil)
+	s.dwell(&s.r.dwellRecover)
 	a, c, err := readSnap(r)
 	if s.linger(&s.r.lingerRecover, done) && err == nil {
 		err = sm.ErrSnapshotStopped
@@ -545,6 +558,7 @@ func (s *diskSM) SaveSnapshot(ctx interface{}, w io.Writer, done <-chan struct{}
 }
 func (s *diskSM) RecoverFromSnapshot(r io.Reader, done <-chan struct{}) error {
 	s.r.enter(s.inc, "RecoverFromSnapshot", nil)
+	s.dwell(&s.r.dwellRecover)
 	a, c, err := readSnap(r)
 	if s.linger(&s.r.lingerRecover, done) && err == nil {
 		err = sm.ErrSnapshotStopped
@@ -617,7 +631,7 @@ type live struct {
 	started bool
 	payload uint64
 	hostClosed bool
-	bUsed, s2Used, seUsed bool
+	bUsed, s2Used, seUsed, instUsed bool
 	dir     string
 	fs      gvfs.FS
 	wg      sync.WaitGroup
@@ -661,8 +675,7 @@ func (l *live) propose() bool { return l.proposeTo(shardID, 0) }
 // proposeTo proposes a fresh payload to shard sid; the acknowledgement is recorded for
 // incarnation inc (0: shard 1's current one)
 func (l *live) proposeTo(sid uint64, inc uint64) bool {
-	l.payload++
-	p := l.payload
+	p := atomic.AddUint64(&l.payload, 1)
 	cmd := make([]byte, 8)
 	binary.LittleEndian.PutUint64(cmd, p)
 	for try := 0; try < 40; try++ {
@@ -682,8 +695,7 @@ func (l *live) proposeTo(sid uint64, inc uint64) bool {
 		}
 		// a timed out proposal may still commit: never re-use the payload
 		if err == dragonboat.ErrTimeout || err == context.DeadlineExceeded {
-			l.payload++
-			p = l.payload
+			p = atomic.AddUint64(&l.payload, 1)
 			binary.LittleEndian.PutUint64(cmd, p)
 		}
 		time.Sleep(5 * time.Millisecond)
@@ -852,6 +864,10 @@ func (l *live) run() {
 			l.streamTo([]uint64{2, 3}, false)
 		case "STREAMEXP": // one streamed replica + an exported snapshot request while PrepareSnapshot dwells
 			l.streamTo([]uint64{4}, true)
+		case "INSTALL":
+			l.install()
+		case "SNAPRACE":
+			l.snapRace(n)
 		case "NAR": // local reads (NAReadLocalNode, StaleRead) while the apply worker is inside Update
 			if l.running {
 				rs, err := l.nh.ReadIndex(shardID, time.Second)
@@ -1157,6 +1173,172 @@ func (l *live) streamTo(rids []uint64, export bool) {
 	}
 }
 
+// install: a new non-voting replica of shard 1 (same kind, recorded in the same call log) joins
+// on a second NodeHost after the leader compacted its log. It is initialised (empty) and
+// running when the leader's snapshot arrives: RecoverFromSnapshot, dwelling, runs on a live
+// replica while client goroutines keep reading from it (StaleRead).
+func (l *live) install() {
+	if !l.running || l.instUsed {
+		return
+	}
+	l.instUsed = true
+	for i := 0; i < 3; i++ {
+		l.propose()
+	}
+	ctx, cancel := context.WithTimeout(context.Background(), 2*time.Second)
+	_, _ = l.nh.SyncRequestSnapshot(ctx, shardID, dragonboat.SnapshotOption{OverrideCompactionOverhead: true, CompactionOverhead: 1})
+	cancel()
+	for i := 0; i < 3; i++ {
+		l.propose()
+		time.Sleep(3 * time.Millisecond)
+	}
+	const rid = 6
+	addr := fmt.Sprintf("%s-f%d", l.nh.RaftAddress(), rid)
+	nhc := config.NodeHostConfig{
+		NodeHostDir: fmt.Sprintf("%s-f%d", l.dir, rid), RTTMillisecond: 2, RaftAddress: addr,
+		Expert: config.ExpertConfig{FS: gvfs.NewMem(), TransportFactory: chanFactory{},
+			Engine: config.EngineConfig{ExecShards: 2, CommitShards: 2, ApplyShards: 2, SnapshotShards: 2, CloseShards: 2}},
+	}
+	nhF, err := dragonboat.NewNodeHost(nhc)
+	if err != nil {
+		l.st.Count("start-error")
+		return
+	}
+	ctx, cancel = context.WithTimeout(context.Background(), 2*time.Second)
+	if err := l.nh.SyncRequestAddNonVoting(ctx, shardID, rid, addr, 0); err != nil {
+		l.st.Count("add-nonvoting-error")
+	}
+	cancel()
+	for len(l.r.recEntered) > 0 {
+		<-l.r.recEntered
+	}
+	atomic.StoreInt64(&l.r.dwellRecover, int64(120*time.Millisecond))
+	var incF uint64
+	rc := config.Config{ReplicaID: rid, ShardID: shardID, ElectionRTT: 5, HeartbeatRTT: 1, CheckQuorum: true,
+		IsNonVoting: true, CompactionOverhead: 2}
+	switch l.c.kind {
+	case "plain":
+		err = nhF.StartReplica(nil, true, func(uint64, uint64) sm.IStateMachine {
+			incF = l.r.newInc()
+			return &plainSM{core{r: l.r, inc: incF}}
+		}, rc)
+	case "conc":
+		err = nhF.StartConcurrentReplica(nil, true, func(uint64, uint64) sm.IConcurrentStateMachine {
+			incF = l.r.newInc()
+			return &concSM{core: core{r: l.r, inc: incF}}
+		}, rc)
+	default:
+		err = nhF.StartOnDiskReplica(nil, true, func(uint64, uint64) sm.IOnDiskStateMachine {
+			incF = l.r.newInc()
+			return &diskSM{core: core{r: l.r, inc: incF}, ds: &diskState{}}
+		}, rc)
+	}
+	if err != nil {
+		l.st.Count("start-error")
+	}
+	// clients keep reading from the new replica
+	stopC := make(chan struct{})
+	var wg sync.WaitGroup
+	var reads uint64
+	for i := 0; i < 2; i++ {
+		wg.Add(1)
+		go func() {
+			defer wg.Done()
+			for {
+				select {
+				case <-stopC:
+					return
+				default:
+				}
+				if _, err := nhF.StaleRead(shardID, "q"); err == nil {
+					atomic.AddUint64(&reads, 1)
+				}
+				time.Sleep(time.Millisecond)
+			}
+		}()
+	}
+	select {
+	case <-l.r.recEntered:
+		l.st.Count("install-recover-in-flight:true")
+		time.Sleep(200 * time.Millisecond)
+	case <-time.After(3 * time.Second):
+		l.st.Count("install-recover-in-flight:false")
+	}
+	close(stopC)
+	wg.Wait()
+	l.st.Count(fmt.Sprintf("install-reads:%v", atomic.LoadUint64(&reads) > 0))
+	atomic.StoreInt64(&l.r.dwellRecover, 0)
+	cc := l.r.closedOf(incF)
+	done := make(chan struct{})
+	go func() { nhF.Close(); close(done) }()
+	select {
+	case <-done:
+	case <-time.After(5 * time.Second):
+		l.st.Count("nodehost-close-timeout")
+	}
+	if cc != nil {
+		select {
+		case <-cc:
+		case <-time.After(time.Second):
+		}
+	}
+}
+
+// snapRace: snapshots are requested while a client keeps proposing and every Update dwells,
+// so that the snapshot worker's prepare step waits for the mutex while the apply worker is
+// inside the user's Update; every point where the apply path releases the mutex is then a
+// point where the waiting save gets in. The replica is restarted from the last snapshot.
+func (l *live) snapRace(n int) {
+	if !l.running {
+		return
+	}
+	if n < 2 {
+		n = 2
+	}
+	atomic.StoreInt64(&l.r.dwellUpdate, int64(4*time.Millisecond))
+	stopC := make(chan struct{})
+	var wg sync.WaitGroup
+	// several clients: the apply queue is never empty, so the snapshot worker reaches the
+	// mutex while the apply worker is already inside the next Update
+	for c := 0; c < 3; c++ {
+		wg.Add(1)
+		go func() {
+			defer wg.Done()
+			for {
+				select {
+				case <-stopC:
+					return
+				default:
+				}
+				l.propose()
+			}
+		}()
+	}
+	for i := 0; i < n; i++ {
+		time.Sleep(6 * time.Millisecond)
+		ctx, cancel := context.WithTimeout(context.Background(), 2*time.Second)
+		_, _ = l.nh.SyncRequestSnapshot(ctx, shardID, dragonboat.DefaultSnapshotOption)
+		cancel()
+	}
+	close(stopC)
+	wg.Wait()
+	atomic.StoreInt64(&l.r.dwellUpdate, 0)
+	// restart from the last snapshot
+	cc := l.r.currentClosed()
+	_ = l.nh.StopShard(shardID)
+	l.running = false
+	select {
+	case <-cc:
+	case <-time.After(2 * time.Second):
+		l.st.Count("close-not-seen")
+	}
+	l.r.releaseBlocked()
+	if err := l.start(); err != nil {
+		l.st.Count("start-error")
+	}
+	l.propose()
+}
+
 var exportSeq uint64
 
 func (l *live) export() {
@@ -1198,7 +1380,7 @@ func genLive(r *vh.Rand, id string, outDir string, tier string) string {
 	ops = append(ops, "START", fmt.Sprintf("P %d", 1+r.Intn(4)))
 	n := 4 + r.Intn(6)
 	for i := 0; i < n; i++ {
-		switch r.Intn(20) {
+		switch r.Intn(22) {
 		case 0, 1:
 			ops = append(ops, fmt.Sprintf("P %d", 1+r.Intn(5)))
 		case 2:
@@ -1232,6 +1414,10 @@ func genLive(r *vh.Rand, id string, outDir string, tier string) string {
 			ops = append(ops, "PENDSTOP")
 		case 18, 19:
 			ops = append(ops, "NAR")
+		case 20:
+			ops = append(ops, "INSTALL")
+		case 21:
+			ops = append(ops, fmt.Sprintf("SNAPRACE %d", 2+r.Intn(3)))
 		case 17:
 			if kind == "disk" {
 				ops = append(ops, []string{"STREAM2", "STREAMEXP"}[r.Intn(2)])
